@@ -1,5 +1,5 @@
 """C08 — SHA-256 and HMAC-SHA256 match the standards (constants and shape; necessary conditions)."""
-from sa.canon import canon, norm, return_expr, statements, V, C
+from sa.canon import pin, vn, canon, norm, return_expr, statements, V, C
 from sa.paths import loops, Cfg
 from sa.match import comparison, const_value
 from sa.build import AnalysisBroken
@@ -80,7 +80,7 @@ def run(ck):
         if not c:
             raise AnalysisBroken('Sha256 anchor %s not found' % name)
         ck.touch(c[0])
-        return c[0]
+        return pin(c[0])
     # ---- constants ------------------------------------------------------------------------------------------
     g = P.global_(AN + 'kRoundConstants')
     lits = [int(n['v']) for n in g['nodes'] if n['k'] == 'IntegerLiteral']
@@ -138,8 +138,8 @@ def run(ck):
     temps = {}
     for i in tr.walk():
         nd = tr.nodes[i]
-        if nd['k'] == 'VarDecl' and nd.get('n') in ('temp1', 'temp2') and 'init' in nd:
-            temps[nd['n']] = norm(canon(tr, nd['init']))
+        if nd['k'] == 'VarDecl' and vn(tr, nd) in ('temp1', 'temp2') and 'init' in nd:
+            temps[vn(tr, nd)] = norm(canon(tr, nd['init']))
     t1 = norm(('+', V('h'), ('call', 'big_sigma1', V('e')), ('call', 'ch', V('e'), V('f'), V('g')), ('idx', C(0), i_), ('idx', V('schedule'), i_)))
     got1 = temps.get('temp1')
     # kRoundConstants[i] is a global array reference: accept any idx whose base is not a local
@@ -154,7 +154,7 @@ def run(ck):
     bounds = []
     for l in loops(tr):
         c = comparison(tr, tr.nodes[l].get('cond'))
-        init = [tr.nodes[j] for j in tr.walk(l) if tr.nodes[j]['k'] == 'VarDecl' and tr.nodes[j].get('n') == 'i']
+        init = [tr.nodes[j] for j in tr.walk(l) if tr.nodes[j]['k'] == 'VarDecl' and vn(tr, tr.nodes[j]) == 'i']
         start = const_value(tr, init[0]['init']) if init else None
         end = const_value(tr, c[2]) if c else None
         if end is None and c and tr.nodes[tr.strip(c[2])].get('callee', '').endswith('::size'):
@@ -166,8 +166,8 @@ def run(ck):
     regs = {}
     for i in tr.walk():
         nd = tr.nodes[i]
-        if nd['k'] == 'VarDecl' and nd.get('n') in list('abcdefgh') and 'init' in nd:
-            regs[nd['n']] = norm(canon(tr, nd['init']))
+        if nd['k'] == 'VarDecl' and vn(tr, nd) in list('abcdefgh') and 'init' in nd:
+            regs[vn(tr, nd)] = norm(canon(tr, nd['init']))
     ck.ob('C08.transform', 'C08.transform/registers-from-state', regs == {r: ('idx', ('f', 'state_'), C(k)) for k, r in enumerate('abcdefgh')}, tr.loc(),
           'a..h are initialised from state_[0..7]')
 
@@ -179,7 +179,7 @@ def run(ck):
     missing = [x for x in need if x not in su]
     ck.ob('C08.update', 'C08.update/statements', not missing, up.loc(), 'update counts 8*size bits, advances buffer_size_ and offset by the copied chunk, resets at a full block'
           + ('' if not missing else ' — missing %s' % (missing,)))
-    decls = {up.nodes[i]['n']: norm(canon(up, up.nodes[i]['init'])) for i in up.walk() if up.nodes[i]['k'] == 'VarDecl' and 'init' in up.nodes[i]}
+    decls = {vn(up, up.nodes[i]): norm(canon(up, up.nodes[i]['init'])) for i in up.walk() if up.nodes[i]['k'] == 'VarDecl' and 'init' in up.nodes[i]}
     ok = decls.get('space') == ('-', C(64), ('f', 'buffer_size_')) and \
         decls.get('chunk') == ('call', 'min', V('space'), ('-', ('mcall', 'size', V('data')), V('offset')))
     ck.ob('C08.update', 'C08.update/chunking', ok, up.loc(), 'space = 64 - buffer_size_, chunk = min(space, data.size() - offset) (found %s / %s)' % (decls.get('space'), decls.get('chunk')))
@@ -211,7 +211,7 @@ def run(ck):
     lb = []
     for l in lp:
         c = comparison(fi, fi.nodes[l].get('cond'))
-        init = [fi.nodes[j] for j in fi.walk(l) if fi.nodes[j]['k'] == 'VarDecl' and fi.nodes[j].get('n') == 'i']
+        init = [fi.nodes[j] for j in fi.walk(l) if fi.nodes[j]['k'] == 'VarDecl' and vn(fi, fi.nodes[j]) == 'i']
         dec = any(fi.nodes[j]['k'] == 'UnaryOperator' and fi.nodes[j].get('op') == '--' for j in fi.walk(l))
         lb.append((const_value(fi, init[0]['init']) if init else None, c[0] if c else None, const_value(fi, c[2]) if c else None, dec))
     ck.ob('C08.finalize', 'C08.finalize/length-big-endian', okl and (7, '>=', 0, True) in lb, fi.loc(),
@@ -227,7 +227,7 @@ def run(ck):
 
     # ---- HMAC -----------------------------------------------------------------------------------------------------
     PH = ck.prog(['src/crypto/HmacSha256.cpp'])
-    hc = PH.fn(NS + 'HmacSha256::compute')
+    hc = pin(PH.fn(NS + 'HmacSha256::compute'))
     ck.touch(hc)
     blk = None
     for gq in PH.globals:
@@ -240,7 +240,7 @@ def run(ck):
     ck.ob('C08.hmac', 'C08.hmac/block-size', blk == 64, hc.loc(), 'HMAC block size is 64 (found %s)' % blk)
     key_d = hc.params[0]['d']
     long_key = [i for i in hc.walk() if hc.nodes[i]['k'] == 'IfStmt' and (c := comparison(hc, hc.nodes[i]['cond'])) and c[0] == '>' and
-                norm(canon(hc, c[1])) == ('mcall', 'size', V(hc.params[0]['n'])) and const_value(hc, c[2]) == 64]
+                norm(canon(hc, c[1])) == ('mcall', 'size', V(vn(hc, hc.params[0]))) and const_value(hc, c[2]) == 64]
     okk = False
     if len(long_key) == 1:
         then, els = hc.nodes[long_key[0]]['then'], hc.nodes[long_key[0]].get('else')
@@ -254,16 +254,21 @@ def run(ck):
     lp = [l for l in loops(hc) if hc.nodes[l]['k'] == 'ForStmt']
     c = comparison(hc, hc.nodes[lp[0]]['cond']) if lp else None
     ck.ob('C08.hmac', 'C08.hmac/pad-loop', bool(c) and c[0] == '<' and const_value(hc, c[2]) == 64, hc.loc(), 'the pad loop covers all 64 bytes')
-    ups = [(hc.text(hc.receiver(i)), hc.text(hc.call_args(i)[0]).split('{')[-1].rstrip('}')) for i in hc.walk() if hc.nodes[i].get('callee') == NS + 'Sha256::update']
-    fins = [hc.text(hc.receiver(i)) for i in hc.walk() if hc.nodes[i].get('callee') == NS + 'Sha256::finalize']
-    want_seq = [('inner', 'i_key_pad'), ('inner', hc.params[1]['n']), ('outer', 'o_key_pad'), ('outer', 'inner_hash')]
-    got_seq = [(a, b.split('.')[0].strip()) for a, b in ups]
+    def vname(n_):
+        for j in hc.walk(n_):
+            if hc.nodes[j]['k'] == 'DeclRefExpr' and hc.nodes[j].get('dk') in ('Var', 'ParmVar'):
+                return vn(hc, hc.nodes[j])
+        return hc.text(n_)
+    ups = [(vname(hc.receiver(i)), vname(hc.call_args(i)[0])) for i in hc.walk() if hc.nodes[i].get('callee') == NS + 'Sha256::update']
+    fins = [vname(hc.receiver(i)) for i in hc.walk() if hc.nodes[i].get('callee') == NS + 'Sha256::finalize']
+    want_seq = [('inner', 'i_key_pad'), ('inner', vn(hc, hc.params[1])), ('outer', 'o_key_pad'), ('outer', 'inner_hash')]
+    got_seq = list(ups)
     ck.ob('C08.hmac', 'C08.hmac/composition', got_seq == want_seq and fins == ['inner', 'outer'], hc.loc(),
           'inner = H(ipad | data), outer = H(opad | inner) (found %s)' % got_seq)
-    ih = [hc.nodes[i] for i in hc.walk() if hc.nodes[i]['k'] == 'VarDecl' and hc.nodes[i].get('n') == 'inner_hash']
+    ih = [hc.nodes[i] for i in hc.walk() if hc.nodes[i]['k'] == 'VarDecl' and vn(hc, hc.nodes[i]) == 'inner_hash']
     okih = len(ih) == 1 and hc.nodes[hc.strip(ih[0]['init'])].get('callee') == NS + 'Sha256::finalize'
     rets = [i for i in hc.walk() if hc.nodes[i]['k'] == 'ReturnStmt']
-    okr = len(rets) == 1 and hc.nodes[hc.strip(hc.kids(rets[0])[0])].get('callee') == NS + 'Sha256::finalize' and 'outer' in hc.text(rets[0])
+    okr = len(rets) == 1 and hc.nodes[hc.strip(hc.kids(rets[0])[0])].get('callee') == NS + 'Sha256::finalize' and vname(rets[0]) == 'outer'
     ck.ob('C08.hmac', 'C08.hmac/result', okih and okr, hc.loc(), 'inner_hash = inner.finalize(); the result is outer.finalize()')
     n1_memory(ck, ck.prog(UNITS))
 
